@@ -50,7 +50,14 @@ func genChain(kind string) (*keyChain, error) {
 			}
 			return k, &k.PublicKey, nil
 		}
-		k, err := ecdsa.GenerateKey(elliptic.P256(), rand.Reader)
+		curve := elliptic.P256()
+		switch kind {
+		case "ecdsa384":
+			curve = elliptic.P384()
+		case "ecdsa521":
+			curve = elliptic.P521()
+		}
+		k, err := ecdsa.GenerateKey(curve, rand.Reader)
 		if err != nil {
 			return nil, nil, err
 		}
@@ -94,7 +101,7 @@ func genChain(kind string) (*keyChain, error) {
 func getChain(kind string) (*keyChain, error) {
 	chainOnce.Do(func() {
 		chains = map[string]*keyChain{}
-		for _, k := range []string{"rsa", "ecdsa"} {
+		for _, k := range []string{"rsa", "ecdsa", "ecdsa384", "ecdsa521"} {
 			c, err := genChain(k)
 			if err != nil {
 				chainErr = err
